@@ -364,6 +364,49 @@ def fallback_sweep(repo, con, registry, tier, seed):
     return stats
 
 
+# ------------------------------------------------------------------------------------------------ expression-domain contracts
+def expr_sweep(con, n, seed, want_failures=3):
+    """Run-time check of an expression-domain contract on the real function over a pool of concrete expressions, judged by
+    the exact rational evaluator.  Returns stats with failures as replayable cases."""
+    import base64
+    import pickle
+    from . import exproracle as xo
+    rng = random.Random(repr((seed, con.qual, "expr")))
+    pool = xo.Pool(rng.randrange(1 << 30))
+    models = [xo.Model(xo.NAMES, rng.randrange(1 << 30)) for _ in range(2)]
+    stats = {"evaluations": 0, "pre_false": 0, "failures": [], "errors": [], "distinct": set()}
+    for i in range(n):
+        try:
+            args = con.sample_args(pool, rng)
+        except Exception as e:
+            stats["errors"].append("sample: " + repr(e))
+            continue
+        if args is None:
+            stats["pre_false"] += 1
+            continue
+        try:
+            out = ("return", con.call_real(args))
+        except Exception as e:
+            out = ("raise", type(e).__name__, str(e))
+        try:
+            why = con.judge(args, out, models)
+        except Exception as e:
+            stats["errors"].append("judge: " + repr(e))
+            continue
+        if why == "pre":
+            stats["pre_false"] += 1
+            continue
+        stats["evaluations"] += 1
+        stats["distinct"].add(repr(args))
+        if why:
+            stats["failures"].append({"function": con.qual, "args": {k: str(v) for k, v in args.items()}, "outcome": [out[0], str(out[1])],
+                                      "why": why, "pickle": base64.b64encode(pickle.dumps(args)).decode()})
+            if len(stats["failures"]) >= want_failures:
+                break
+    stats["distinct"] = len(stats["distinct"])
+    return stats
+
+
 # ------------------------------------------------------------------------------------------------ known findings
 def load_baseline():
     if BASELINE.exists():
@@ -405,11 +448,23 @@ class Report:
         self.solver_ms = 0.0
         self.cover = {"checked": 0, "sat": 0}
         self.fallbacks = []
+        self.assumed_contracts = []
+        self.bounded_only = set()
         self.baseline = set(load_baseline().get(pid, []))
 
 
 def check_contract(rep: Report, repo, con, registry, known_open, budget_ms, kmax):
     pid = rep.pid
+    if getattr(con, "assumed", False):
+        try:
+            fi = repo.func(con.qual)
+            rep.functions[fi.qualname] = fi.sha
+        except KeyError:
+            pass
+        rep.assumed_contracts.append(f"{con.qual} (body outside the generator's subset or resting on trusted probability facts: "
+                                     f"contract assumed at call sites, checked by the bounded stand-in only)")
+        rep.bounded_only.add(con.qual)
+        return
     G = generate(repo, con)
     rep.functions.update(G.used_funcs)
     rep.used_lib |= G.used_lib
@@ -418,6 +473,7 @@ def check_contract(rep: Report, repo, con, registry, known_open, budget_ms, kmax
         if n not in rep.assumptions:
             rep.assumptions.append(n)
     theory = getattr(con, "theory", "exact")
+    is_expr = getattr(con, "domain", "graph") == "expr"
     if G.out_of_subset or not G.instances:
         o = Obl(f"{con.qual}/*")
         o.status, o.reason = "undecided", "out-of-subset: " + "; ".join(G.out_of_subset or ["no obligations generated"])
@@ -433,8 +489,36 @@ def check_contract(rep: Report, repo, con, registry, known_open, budget_ms, kmax
         inst = G.instances[len(G.instances) // 2]
         rep.samples.append({"obligation": inst.oid, "goal": str(z3.simplify(inst.goal))[:400], "hypotheses": len(inst.hyps)})
     # vacuity guard: some returning path of every variant must be satisfiable on a small finite universe
-    if not _cover_ok(repo, con, rep):
+    if not (_cover_expr(G, rep) if is_expr else _cover_ok(repo, con, rep)):
         rep.errors.append(f"vacuous contract: no satisfiable returning path for {con.qual}")
+    if open_oids and is_expr:
+        # candidate counterexamples of expression obligations are confirmed by searching concrete expressions
+        st = expr_sweep(con, 1500 if rep.tier == "quick" else 12000, rep.seed, want_failures=1)
+        for o in by.values():
+            if o.status == "discharged":
+                rep.obls.append(o)
+                continue
+            rep.obls.append(o)
+            kf = next((k for k in known_open if k["property"] == pid and k["obligation"] == o.oid), None)
+            if kf is not None:
+                rep.known_lines.append(f"KNOWN-FINDING: property={pid} {kf['what']}")
+                o.status = "known-finding"
+                continue
+            if st["failures"]:
+                path = write_replay(pid, o.oid, {"property": pid, "obligation": o.oid, "function": con.qual, "status": o.status,
+                                                 "kind": "expr", "case": st["failures"][0]})
+                if not any(v[0].startswith(con.qual + "/") for v in rep.violations):
+                    rep.violations.append((o.oid, path, ""))
+            elif o.status == "refuted" and o.oid in rep.baseline:
+                path = write_replay(pid, o.oid, {"property": pid, "obligation": o.oid, "function": con.qual, "status": "refuted",
+                                                 "kind": "expr", "searched": st["evaluations"], "solver": sorted(o.backends),
+                                                 "note": "obligation discharged on the unchanged tree, refuted now; no concrete failing input in the pool"})
+                rep.violations.append((o.oid, path, " no-failing-input-found"))
+            else:
+                o.status = "undecided"
+                o.reason = o.reason or "candidate counter-model, not confirmed on concrete expressions"
+                rep.undecided.append(o)
+        return
     if open_oids:
         found = finite_search(repo, con, open_oids, kmax, budget_ms)
         for oid, (k, vi, model, note) in found.items():
@@ -478,6 +562,22 @@ def check_contract(rep: Report, repo, con, registry, known_open, budget_ms, kmax
         rep.violations.append((o.oid, path, "" if confirmed else " no-failing-input-found"))
 
 
+def _cover_expr(G, rep):
+    import z3
+    for L, pc, probes, vi in G.cover:
+        rep.cover["checked"] += 1
+        s = z3.Solver()
+        s.set("timeout", 5000)
+        for a in L.relevant_axioms(pc):
+            s.add(a)
+        for f in pc:
+            s.add(f)
+        if s.check() == z3.sat:
+            rep.cover["sat"] += 1
+            return True
+    return False
+
+
 def _cover_ok(repo, con, rep):
     import z3
     for k in (2, 3):
@@ -505,6 +605,12 @@ def run(pid, tier, seed, extra=None):
     budget_ms = 10000 if tier == "quick" else 60000
     kmax = 3 if tier == "quick" else 4
     cons = [c for c in registry.values() if pid in c.props and not getattr(c, "inline_only", False)]
+    # an expensive contract is verified under its owner property (the first one it lists); the other properties use it
+    # modularly, as a stated assumption (a caller is checked against the callee's contract, not its body)
+    for c in cons:
+        if getattr(c, "expensive", False) and c.props[0] != pid:
+            rep.assumed_contracts.append(f"{c.qual} (verified under {c.props[0]})")
+    cons = [c for c in cons if not (getattr(c, "expensive", False) and c.props[0] != pid)]
     try:
         for con in cons:
             try:
@@ -515,7 +621,15 @@ def run(pid, tier, seed, extra=None):
         undecided_funcs = {o.oid.split("/")[0] for o in rep.undecided}
         for con in cons:
             try:
-                if con.qual in undecided_funcs:
+                if getattr(con, "domain", "graph") == "expr":
+                    deep = con.qual in undecided_funcs or con.qual in rep.bounded_only
+                    n = (4000 if deep else 150) if tier == "quick" else (40000 if deep else 3000)
+                    st = expr_sweep(con, n, seed)
+                    if deep:
+                        rep.fallbacks.append({"function": con.qual, "scope": f"{n} sampled concrete expressions (depth <= 3 over A,B,C) judged by exact evaluation",
+                                              "evaluations": st["evaluations"], "failures": len(st["failures"])})
+                    st["failures"] = [(["contract"], f) for f in st["failures"]]
+                elif con.qual in undecided_funcs:
                     st = fallback_sweep(repo, con, registry, tier, seed)
                     rep.fallbacks.append({"function": con.qual, "scope": st["scope"], "evaluations": st["evaluations"],
                                           "failures": len(st["failures"])})
@@ -562,7 +676,7 @@ def finish(rep: Report, cons):
     n_obl = len([o for o in rep.obls if not o.oid.endswith("/*")])
     n_dis = len([o for o in rep.obls if o.status == "discharged"])
     bounded_evals = sum(b["evaluations"] for b in rep.bounded) + sum(p.get("evaluations", 0) for p in rep.extra_parts)
-    all_proved = n_obl > 0 and n_dis == n_obl and not rep.undecided and not rep.known_lines and not any(
+    all_proved = n_obl > 0 and n_dis == n_obl and not rep.undecided and not rep.known_lines and not rep.bounded_only and not any(
         p.get("decides") for p in rep.extra_parts if p.get("kind") == "bounded")
     level = "proof" if all_proved else "other"
     for line in rep.known_lines:
@@ -578,6 +692,7 @@ def finish(rep: Report, cons):
         "obligation_table": [o.as_json() for o in rep.obls],
         "undecided": [o.oid for o in rep.undecided],
         "known_findings_open": rep.known_lines,
+        "assumed_contracts": rep.assumed_contracts,
         "bounded_parts": rep.bounded,
         "bounded_fallbacks_for_undecided": rep.fallbacks,
         "extra_parts": rep.extra_parts,
